@@ -10,7 +10,7 @@ saved bytes of every other actor's object are unchanged; fresh constructions equ
 pristine reference taken at world start (each history runs in a pristine forked
 process); a suspended writer yields the bytes of an uninterrupted save.
 """
-from .. import builder, env, files, seeds, simio, snapshot  # noqa: F401
+from .. import builder, env, files, seeds, simio, snapshot, noise  # noqa: F401
 from ..runner import Acc
 from ..simio import Ctx, HarnessTimeout, active
 
@@ -241,6 +241,9 @@ def execute(case):
 
     for i, op in enumerate(case["ops"]):
         k = op["k"]
+        if k == "bgload":
+            noise.run(op)
+            continue
         try:
             if k == "obtain":
                 how = op.get("how", "new")
@@ -546,6 +549,7 @@ def generate(seed, i, tier="quick"):
         else:
             ops.append({"k": "drop", "a": a})
     ops.append({"k": "construct_check", "kind": focus_kind, "t": focus_t})
+    noise.sprinkle(r, ops)
     return {"property": PROPERTY, "world": "actors", "layout": 2, "ops": ops}
 
 
